@@ -5,6 +5,7 @@ package driver
 import (
 	"regexp"
 
+	"github.com/google/pprof/internal/plugin"
 	"github.com/google/pprof/profile"
 )
 
@@ -220,4 +221,66 @@ func VerifC11ApplyPruneFrom() {
 	}
 	vAssert(same, "C11.applyprunefrom.differs: the prune_from option does not remove exactly the frames Profile.PruneFrom removes for the expression")
 	vObserve(len(p.Sample[0].Location))
+}
+
+func init() { vRegister("VerifC09BadExpressions", VerifC09BadExpressions) }
+
+// VerifC09BadExpressions (property C09): a malformed expression in any filter
+// option or command argument is reported as an error - the first time and
+// every later time it is used in the session - and never crashes.
+func VerifC09BadExpressions() {
+	exprs := []string{"(", "[a", "a(b", "**", "ok"}
+	ex := exprs[vChoice("expr", len(exprs))]
+	build := func() *profile.Profile {
+		m := &profile.Mapping{ID: 1, Start: 0x1000, Limit: 0x9000, File: "bin", HasFunctions: true}
+		f := &profile.Function{ID: 1, Name: "ok", SystemName: "ok", Filename: "f.go"}
+		l := &profile.Location{ID: 1, Mapping: m, Address: 0x1000, Line: []profile.Line{{Function: f, Line: 1}}}
+		return &profile.Profile{
+			SampleType: []*profile.ValueType{{Type: "samples", Unit: "count"}}, PeriodType: &profile.ValueType{Type: "cpu", Unit: "ns"}, Period: 1,
+			Mapping: []*profile.Mapping{m}, Function: []*profile.Function{f}, Location: []*profile.Location{l},
+			Sample: []*profile.Sample{{Location: []*profile.Location{l}, Value: []int64{1}, Label: map[string][]string{"k": {"ok"}}}},
+		}
+	}
+	opt := vChoice("option", 12)
+	once := func() bool {
+		cfg := config{}
+		switch opt {
+		case 0:
+			cfg.Focus = ex
+		case 1:
+			cfg.Ignore = ex
+		case 2:
+			cfg.Hide = ex
+		case 3:
+			cfg.Show = ex
+		case 4:
+			cfg.ShowFrom = ex
+		case 5:
+			cfg.PruneFrom = ex
+		case 6:
+			cfg.TagFocus = ex
+		case 7:
+			cfg.TagIgnore = "k=" + ex
+		case 8:
+			cfg.TagShow = ex
+		case 9:
+			cfg.TagHide = ex
+		default:
+			// a command argument: peek <expr> / list <expr>
+			cmd := []string{"peek", ex}
+			if opt == 11 {
+				cmd = []string{"list", ex}
+			}
+			c := currentConfig()
+			_, _, err := generateRawReport(build(), cmd, c, &plugin.Options{UI: &vNullUI{}})
+			return err != nil
+		}
+		return applyFocus(build(), nil, cfg, &vNullUI{}) != nil
+	}
+	first := once()
+	second := once()
+	third := once()
+	vReach("C09.badexpr:returned")
+	vAssert(first == (ex != "ok"), "C09.badexpr.first: a malformed expression was accepted (or a well-formed one rejected)")
+	vAssert(second == first && third == first, "C09.badexpr.again: the same expression is treated differently when it is used again in the session")
 }
